@@ -2,6 +2,7 @@ package main
 
 import (
 	"encoding/binary"
+	"errors"
 	"fmt"
 	"io"
 	"math/rand"
@@ -367,6 +368,20 @@ func c11Server(run *evid.Run) {
 		} else {
 			cl.Conn.SetReadDeadline(time.Now().Add(10 * time.Second))
 			n, rerr = io.Copy(io.Discard, cl.R)
+			if rerr != nil && isTimeout(rerr) {
+				// a loaded machine: one longer second chance before the state-based verdict
+				run.Count("server_second_chance_waits", 1)
+				cl.Conn.SetReadDeadline(time.Now().Add(30 * time.Second))
+				var n2 int64
+				n2, rerr = io.Copy(io.Discard, cl.R)
+				n += n2
+			}
+		}
+		if rerr != nil && !isTimeout(rerr) {
+			// connection reset / broken pipe: the server closed the connection with unread input
+			// in its receive queue, which TCP reports as a reset. That is a close.
+			run.Count("server_closed_with_reset", 1)
+			rerr = nil
 		}
 		run.Eval(1)
 		run.Count("server_inputs", 1)
@@ -561,4 +576,9 @@ func runWithTimeout(cmd *exec.Cmd, d time.Duration) ([]byte, error) {
 		r := <-ch
 		return r.b, fmt.Errorf("timeout")
 	}
+}
+
+func isTimeout(err error) bool {
+	var ne interface{ Timeout() bool }
+	return errors.As(err, &ne) && ne.Timeout()
 }
